@@ -233,9 +233,14 @@ def run(ctx):
         layer_bulk(ctx, im, vec, nids if i < 4 else nids // 10)
     # (c) injected
     nvec = ctx.n(8000, 400000)
+    from pyabv.impl import host_settings
+
     for i in range(nvec):
         vec = random_vector(rnd)
-        layer_injected(ctx, im, vec)
+        # every tenth vector with the host's decimal context cut to 3 digits, every tenth with a clock running 3600x fast
+        with host_settings({0: "decimal", 5: "clock"}.get(i % 10)):
+            layer_injected(ctx, im, vec)
+        ctx.count("host-settings/" + {0: "decimal", 5: "clock"}.get(i % 10, "default"))
         if i < 2:
             ctx.sample(dict(layer="injected", weights=vec))
     # (d) repeated / equal-comparing labels
